@@ -304,6 +304,7 @@ type vWorld struct {
 	notifs   []bool
 	nsess    int
 	accepted int // SyncStart messages that opened a session (Seq advanced)
+	bfEnded  bool // the block fetcher goroutine of the current session has ended
 
 	shortTO   time.Duration // duration of the short real timers of this run
 	timerUsed bool          // the script of this run needs a finder / hash-fetcher timer
@@ -444,6 +445,9 @@ func (w *vWorld) out(target string, m interface{}) {
 		v := 0
 		if msg.Err == nil {
 			v = 1
+		}
+		if msg.FromWho == NameBlockFetcher {
+			w.bfEnded = true // the block fetcher goroutine reports its end (error or recovered panic) with this message
 		}
 		if msg.Err == ErrHashFetcherTimeout || msg.Err == ErrorGetSyncAncestorTimeout || msg.Err == ErrFinderTimeout {
 			w.logf("timer fired: %v", msg.Err)
